@@ -119,6 +119,11 @@ impl Spec {
     fn scale(&self) -> f64 {
         self.all_points().iter().fold(1e-30f64, |m, p| m.max(p.x.abs() as f64).max(p.y.abs() as f64))
     }
+    /// polygonal with all coordinates on the 1/8 lattice (no tolerance-sized snapping can occur for
+    /// tolerances ≤ 0.01; the flattening vertices of a curve are not on the lattice)
+    fn lattice(&self) -> bool {
+        !self.has_curves() && self.all_points().iter().all(|p| (p.x * 8.0).fract() == 0.0 && (p.y * 8.0).fract() == 0.0 && p.x.abs() < 16384.0 && p.y.abs() < 16384.0)
+    }
     fn transform(&mut self, f: &dyn Fn(Point) -> Point) {
         for s in &mut self.subs {
             s.start = f(s.start);
@@ -335,9 +340,17 @@ impl Cfg {
         Cfg {
             rule: if rng.chance(1, 2) { FillRule::EvenOdd } else { FillRule::NonZero },
             orientation: if rng.chance(1, 2) { Orientation::Vertical } else { Orientation::Horizontal },
-            tol: *rng.pick(&[0.01f32, 0.05, 0.1, 0.25]),
+            tol: *rng.pick(&[0.001f32, 0.005, 0.01]), // rescaled to the size of the path by `for_spec`
             entry: rng.below(3) as usize,
         }
+    }
+    /// tolerance relative to the size of the path (base tolerance at coordinates up to 8)
+    fn for_spec(mut self, spec: &Spec) -> Cfg {
+        let s = spec.scale();
+        if !(s >= 2.0 && s <= 16.0) {
+            self.tol = (self.tol as f64 * s.max(1e-6) / 8.0) as f32;
+        }
+        self
     }
     fn options(&self) -> FillOptions {
         FillOptions::tolerance(self.tol).with_fill_rule(self.rule).with_sweep_orientation(self.orientation)
@@ -478,10 +491,12 @@ fn project(a: Point, b: Point, p: Point) -> (f64, f64) {
     (u, d)
 }
 
-fn src_mentions_edge(s: &VertexSource, from: EndpointId, to: EndpointId) -> bool {
+/// does source `s` place its vertex on the edge `from → to` at (about) parameter `tw`?
+fn src_mentions_edge(s: &VertexSource, from: EndpointId, to: EndpointId, tw: f64, slack: f64) -> bool {
     match s {
-        VertexSource::Edge { from: f, to: t, .. } => *f == from && *t == to,
-        VertexSource::Endpoint { id } => *id == from || *id == to,
+        VertexSource::Edge { from: f, to: t, t: ts } => *f == from && *t == to && (*ts as f64 - tw).abs() <= slack,
+        // (W is strictly inside the edge, so an endpoint source never stands for the edge)
+        VertexSource::Endpoint { .. } => false,
     }
 }
 
@@ -492,17 +507,20 @@ fn src_mentions_edge(s: &VertexSource, from: EndpointId, to: EndpointId) -> bool
 /// `edges_to_split` branch, which creates no edge record), and both W and the reported parameter
 /// lie on the same side of the vertex's true parameter (the part of the edge beyond W was cut
 /// again and remapped against the stale range start).
-fn classify(verts: &[VRec], vi: usize, a: Point, b: Point, from: EndpointId, to: EndpointId, t: f64, env: f64) -> &'static str {
+fn classify(verts: &[VRec], vi: usize, a: Point, b: Point, from: EndpointId, to: EndpointId, t: f64, wtol: f64, t0: f64, t1: f64) -> &'static str {
+    // `a → b` is the input edge (t0 = 0, t1 = 1) or the chord of a flattened curve carrying the
+    // parameters t0..t1; `t` is the reported parameter as a fraction of the chord
     let (ustar, _) = project(a, b, verts[vi].pos);
     for (wi, w) in verts.iter().enumerate() {
         if wi == vi {
             continue;
         }
         let (uw, dw) = project(a, b, w.pos);
-        if !(uw > 0.0 && uw < 1.0) || dw > env.max(1e-3) {
+        if !(uw > 0.0 && uw < 1.0) || dw > wtol {
             continue;
         }
-        if w.sources.iter().any(|s| src_mentions_edge(s, from, to)) {
+        let tw = t0 + uw * (t1 - t0);
+        if w.sources.iter().any(|s| src_mentions_edge(s, from, to, tw, 0.02 * (t1 - t0).abs() + 1e-4)) {
             continue;
         }
         if (uw - ustar) * (t - ustar) > 0.0 {
@@ -512,10 +530,148 @@ fn classify(verts: &[VRec], vi: usize, a: Point, b: Point, from: EndpointId, to:
     "generic"
 }
 
+/// position in sweep space (`Orientation::Horizontal` rotates the input by a quarter turn)
+fn sweep(p: Point, o: Orientation) -> Point {
+    match o {
+        Orientation::Vertical => p,
+        Orientation::Horizontal => point(-p.y, p.x),
+    }
+}
+
+fn is_after(a: Point, b: Point) -> bool {
+    a.y > b.y || (a.y == b.y && a.x > b.x)
+}
+
+/// A→B is level (sweep-horizontal) and `v` is on its carrier line (up to the rounding envelope `lt`)
+fn inside_level(a: Point, b: Point, v: Point, o: Orientation, lt: f64) -> bool {
+    let (a, b, v) = (sweep(a, o), sweep(b, o), sweep(v, o));
+    let lt = lt as f32;
+    (a.y - b.y).abs() <= lt && (v.y - a.y).abs() <= lt
+}
+
+/// Witness class of an endpoint source (or `as_endpoint_id`) that is not at the vertex.
+///
+/// `reversed-curve`: `id` is one end of a curve whose start is after its end in sweep order and
+/// the vertex is at (within the tolerance of) the curve's other end (the event queue flattens such a curve from its end and
+/// stores the parameters of the flipped curve with the unflipped endpoint ids).
+/// `coincident-level-edges`: the vertex lies on a level (sweep-horizontal) input edge (or level
+/// chord of a flattened curve) that has `id` as an end (`merge_coincident_edges` computes the split parameter with
+/// `solve_t_for_y`, which is 0 for a level edge).
+fn classify_endpoint(geom: &HashMap<(u32, u32), Geom>, pid: Point, v: Point, o: Orientation, tol: f32, lt: f64) -> &'static str {
+    let mut keys: Vec<&(u32, u32)> = geom.keys().collect();
+    keys.sort();
+    for k in &keys {
+        let g = &geom[*k];
+        let (a, b) = (g.a, g.seg.to());
+        let near = |p: Point, q: Point| dist64((p.x as f64, p.y as f64), q) <= tol as f64 + lt;
+        if g.seg.is_curve() && is_after(sweep(a, o), sweep(b, o)) && ((a == pid && near(b, v)) || (b == pid && near(a, v))) {
+            return "reversed-curve";
+        }
+    }
+    for k in &keys {
+        let g = &geom[*k];
+        if g.a == pid || g.seg.to() == pid {
+            if flatten_seg(g.a, &g.seg, false, tol, o).iter().chain(flatten_seg(g.a, &g.seg, true, tol, o).iter()).any(|(pa, pb, _, _)| inside_level(*pa, *pb, v, o, lt)) {
+                return "coincident-level-edges";
+            }
+        }
+    }
+    "generic"
+}
+
+fn unsweep(p: Point, o: Orientation) -> Point {
+    match o {
+        Orientation::Vertical => p,
+        Orientation::Horizontal => point(p.y, -p.x),
+    }
+}
+
+/// the tessellator's own flattening of a curve (in sweep space, with the tolerance of the fill
+/// options), mapped back to input space: pieces (from, to, t0, t1)
+fn flatten_seg(a: Point, seg: &Seg, flipped: bool, tol: f32, o: Orientation) -> Vec<(Point, Point, f32, f32)> {
+    let mut v = Vec::new();
+    match seg {
+        Seg::Line(b) => v.push((a, *b, 0.0, 1.0)),
+        Seg::Quad(c, b) => {
+            let mut q = QuadraticBezierSegment { from: sweep(a, o), ctrl: sweep(*c, o), to: sweep(*b, o) };
+            if flipped {
+                std::mem::swap(&mut q.from, &mut q.to);
+            }
+            q.for_each_flattened_with_t(tol, &mut |l, t| v.push((unsweep(l.from, o), unsweep(l.to, o), t.start, t.end)));
+        }
+        Seg::Cubic(c1, c2, b) => {
+            let mut q = CubicBezierSegment { from: sweep(a, o), ctrl1: sweep(*c1, o), ctrl2: sweep(*c2, o), to: sweep(*b, o) };
+            if flipped {
+                std::mem::swap(&mut q.from, &mut q.to);
+                std::mem::swap(&mut q.ctrl1, &mut q.ctrl2);
+            }
+            q.for_each_flattened_with_t(tol, &mut |l, t| v.push((unsweep(l.from, o), unsweep(l.to, o), t.start, t.end)));
+        }
+    }
+    v
+}
+
+/// the piece of a flattening that carries parameter `t`, and the point at `t` on it
+fn at_param(flat: &[(Point, Point, f32, f32)], t: f64) -> Option<(Point, Point, f64, (f64, f64), f64, f64)> {
+    let mut best = None;
+    for (a, b, t0, t1) in flat {
+        let (t0, t1) = (*t0 as f64, *t1 as f64);
+        if t >= t0 - 1e-6 && t <= t1 + 1e-6 && t1 > t0 {
+            let u = ((t - t0) / (t1 - t0)).max(0.0).min(1.0);
+            best = Some((*a, *b, u, lerp64(*a, *b, u), t0, t1));
+            if t < t1 {
+                break;
+            }
+        }
+    }
+    best
+}
+
+/// Collects every failing clause of a case; a failure of an unlisted (`generic`) class takes
+/// precedence over failures of the narrow classes of known findings, so that a known defect
+/// occurring in the same case never hides a different violation.
+struct Fails(Vec<(String, String, String)>);
+
+impl Fails {
+    fn check(&mut self, cond: bool, clause: &str, class: &str, detail: impl FnOnce() -> String) {
+        if !cond && self.0.len() < 64 {
+            self.0.push((clause.to_string(), class.to_string(), detail()));
+        }
+    }
+    fn failed_generic(&self) -> bool {
+        self.0.iter().any(|f| f.1 == "generic")
+    }
+    fn into_oracle(self, orc: &mut Oracle) {
+        let pick = self.0.iter().find(|f| f.1 == "generic").or(self.0.first());
+        if let Some((clause, class, detail)) = pick {
+            orc.check(false, clause, class, || detail.clone());
+        }
+    }
+}
+
 fn check_run(spec: &Spec, at: &AttrSpec, cfg: &Cfg, run: &Run, orc: &mut Oracle) {
+    let mut f = Fails(Vec::new());
+    check_run_inner(spec, at, cfg, run, &mut f);
+    f.into_oracle(orc);
+}
+
+fn check_run_inner(spec: &Spec, at: &AttrSpec, cfg: &Cfg, run: &Run, orc: &mut Fails) {
     let scale = spec.scale();
-    let env = 4e-5 + 64.0 * EPS32 * scale;
+    // rounding envelope: the tessellator snaps an intersection to an edge end within 3.2e-5
+    // (`is_near`); off the lattice a vertex within the fill tolerance of an edge is treated as
+    // lying on it, so the tolerance is added there
+    let env = 4e-5 + 64.0 * EPS32 * scale + if spec.lattice() { 0.0 } else { cfg.tol as f64 };
+    let lvl = 4e-5 + 64.0 * EPS32 * scale;
     let pts = spec.endpoints();
+    if std::env::var("C07_DUMP").is_ok() {
+        eprintln!("spec {:?}\nids {:?}", spec, run.ids);
+        for (vi, v) in run.verts.iter().enumerate() {
+            eprintln!("vertex {} at {:?} sources {:?} attrs {:?}", vi, v.pos, v.sources, v.attrs);
+            for r in &v.recs {
+                eprintln!("     rec {:?}", r);
+            }
+        }
+    }
     for (vi, v) in run.verts.iter().enumerate() {
         orc.check(!v.sources.is_empty(), "fill.vertex/at-least-one-source", "generic", || format!("vertex {} at {:?} has no source", vi, v.pos));
     }
@@ -546,16 +702,30 @@ fn check_run(spec: &Spec, at: &AttrSpec, cfg: &Cfg, run: &Run, orc: &mut Oracle)
     }
     let maxattr = at.values.iter().flat_map(|v| v.iter()).fold(1.0f64, |m, x| m.max(x.abs() as f64));
     for (vi, v) in run.verts.iter().enumerate() {
+        let before = orc.0.len();
         // --- every source lies where it says
         for s in &v.sources {
             match *s {
                 VertexSource::Endpoint { id } => match pos_of.get(&id.0) {
                     None => orc.check(false, "fill.vertex/endpoint-source-known", "generic", || format!("vertex {} source endpoint {} is not an endpoint of the path", vi, id.0)),
-                    Some(p) => orc.check(*p == v.pos, "fill.vertex/endpoint-source-position", "generic", || {
-                        format!("vertex {} at {:?} lists endpoint {} which is at {:?}", vi, v.pos, id.0, p)
-                    }),
+                    Some(p) => {
+                        if *p != v.pos {
+                            let class = classify_endpoint(&geom, *p, v.pos, cfg.orientation, cfg.tol, lvl);
+                            orc.check(false, "fill.vertex/endpoint-source-position", class, || {
+                                format!("vertex {} at {:?} lists endpoint {} which is at {:?}", vi, v.pos, id.0, p)
+                            });
+                        }
+                    }
                 },
-                VertexSource::Edge { from, to, t } => match geom.get(&(from.0, to.0)) {
+                // (an edge following a repeated point keeps the id of the first copy of the point:
+                // `line_segment` returns early on `from == to` without advancing the id; such an
+                // edge is identified through the positions of its ends)
+                VertexSource::Edge { from, to, t } => match geom.get(&(from.0, to.0)).or_else(|| {
+                    let (pf, pt) = (pos_of.get(&from.0)?, pos_of.get(&to.0)?);
+                    let mut c: Vec<(&(u32, u32), &Geom)> = geom.iter().filter(|(_, g)| g.a == *pf && g.seg.to() == *pt && (g.seg.is_curve() || g.a != g.seg.to())).collect();
+                    c.sort_by_key(|(k, _)| **k);
+                    c.first().map(|(_, g)| *g)
+                }) {
                     None => orc.check(false, "fill.vertex/edge-source-known", "generic", || format!("vertex {} source edge {}->{} is not an edge of the path", vi, from.0, to.0)),
                     Some(g) => {
                         let tt = t as f64;
@@ -567,25 +737,40 @@ fn check_run(spec: &Spec, at: &AttrSpec, cfg: &Cfg, run: &Run, orc: &mut Oracle)
                                 let q = lerp64(g.a, *b, tt);
                                 let d = dist64(q, v.pos);
                                 if !(d <= env) {
-                                    let class = classify(&run.verts, vi, g.a, *b, from, to, tt, env);
+                                    let class = if inside_level(g.a, *b, v.pos, cfg.orientation, lvl) {
+                                        "coincident-level-edges"
+                                    } else {
+                                        classify(&run.verts, vi, g.a, *b, from, to, tt, env + cfg.tol as f64 + 1e-3, 0.0, 1.0)
+                                    };
                                     orc.check(false, "fill.vertex/edge-source-position", class, || {
                                         format!("vertex {} at {:?}: edge {:?}->{:?} t = {} is ({:.6},{:.6}), {:.3e} away (allowed {:.1e})", vi, v.pos, g.a, b, t, q.0, q.1, d, env)
                                     });
                                 }
                             }
-                            Seg::Quad(c, b) => {
-                                let q = QuadraticBezierSegment { from: g.a.to_f64(), ctrl: c.to_f64(), to: b.to_f64() }.sample(tt);
-                                let d = dist64((q.x, q.y), v.pos);
-                                orc.check(d <= 2.0 * cfg.tol as f64 + env, "fill.vertex/curve-source-position", "generic", || {
-                                    format!("vertex {} at {:?}: quadratic {:?} {:?} {:?} t = {} is {:?}, {:.3e} away (tolerance {})", vi, v.pos, g.a, c, b, t, q, d, cfg.tol)
-                                });
-                            }
-                            Seg::Cubic(c1, c2, b) => {
-                                let q = CubicBezierSegment { from: g.a.to_f64(), ctrl1: c1.to_f64(), ctrl2: c2.to_f64(), to: b.to_f64() }.sample(tt);
-                                let d = dist64((q.x, q.y), v.pos);
-                                orc.check(d <= 2.0 * cfg.tol as f64 + env, "fill.vertex/curve-source-position", "generic", || {
-                                    format!("vertex {} at {:?}: cubic {:?} {:?} {:?} {:?} t = {} is {:?}, {:.3e} away (tolerance {})", vi, v.pos, g.a, c1, c2, b, t, q, d, cfg.tol)
-                                });
+                            curve => {
+                                // the vertex is the point at parameter t of the tessellator's own
+                                // flattening of the curve (piecewise linear in t; every piece within
+                                // the tolerance of the curve)
+                                let flat = flatten_seg(g.a, curve, false, cfg.tol, cfg.orientation);
+                                let hit = at_param(&flat, tt);
+                                let d = hit.map_or(f64::INFINITY, |h| dist64(h.3, v.pos));
+                                if !(d <= env) {
+                                    let rflat = flatten_seg(g.a, curve, true, cfg.tol, cfg.orientation);
+                                    let rhit = at_param(&rflat, tt);
+                                    let reversed = is_after(sweep(g.a, cfg.orientation), sweep(curve.to(), cfg.orientation));
+                                    let class = if reversed && rhit.map_or(false, |h| dist64(h.3, v.pos) <= env) {
+                                        "reversed-curve"
+                                    } else if flat.iter().chain(rflat.iter()).any(|(pa, pb, _, _)| inside_level(*pa, *pb, v.pos, cfg.orientation, lvl)) {
+                                        "coincident-level-edges"
+                                    } else if let Some((pa, pb, u, _, t0, t1)) = if reversed { rhit } else { hit } {
+                                        classify(&run.verts, vi, pa, pb, from, to, u, env + cfg.tol as f64 + 1e-3, t0, t1)
+                                    } else {
+                                        "generic"
+                                    };
+                                    orc.check(false, "fill.vertex/curve-source-position", class, || {
+                                        format!("vertex {} at {:?}: curve from {:?} {:?} t = {}: flattened curve at t is {:?}, {:.3e} away (allowed {:.1e})", vi, v.pos, g.a, curve, t, hit.map(|h| h.3), d, env)
+                                    });
+                                }
                             }
                         }
                     }
@@ -593,13 +778,17 @@ fn check_run(spec: &Spec, at: &AttrSpec, cfg: &Cfg, run: &Run, orc: &mut Oracle)
             }
         }
         if let Some(id) = v.ep {
-            orc.check(pos_of.get(&id.0).map_or(false, |p| *p == v.pos), "fill.vertex/as-endpoint-id-position", "generic", || {
+            let good = pos_of.get(&id.0).map_or(false, |p| *p == v.pos);
+            let class = if good { "generic" } else { pos_of.get(&id.0).map_or("generic", |p| classify_endpoint(&geom, *p, v.pos, cfg.orientation, cfg.tol, lvl)) };
+            orc.check(good, "fill.vertex/as-endpoint-id-position", class, || {
                 format!("vertex {} at {:?}: as_endpoint_id = {} which is at {:?}", vi, v.pos, id.0, pos_of.get(&id.0))
             });
         }
-        if orc.failed() {
+        if orc.failed_generic() {
             return;
         }
+        // a wrong source of a listed class makes the attributes of this vertex wrong as a consequence
+        let vclass: String = orc.0[before..].first().map_or("generic".to_string(), |f| f.1.clone());
         // --- interpolated attributes = average over the sources of the lerped endpoint attributes
         if at.n > 0 {
             orc.check(v.attrs.len() == at.n, "fill.vertex/attributes-count", "generic", || format!("vertex {}: {} attributes, expected {}", vi, v.attrs.len(), at.n));
@@ -632,7 +821,7 @@ fn check_run(spec: &Spec, at: &AttrSpec, cfg: &Cfg, run: &Run, orc: &mut Oracle)
                 for j in 0..at.n.min(v.attrs.len()) {
                     let g = co[j][0] as f64 + co[j][1] as f64 * v.pos.x as f64 + co[j][2] as f64 * v.pos.y as f64;
                     let allowed = (co[j][1].abs() + co[j][2].abs()) as f64 * env + 32.0 * EPS32 * maxattr;
-                    orc.check((v.attrs[j] as f64 - g).abs() <= allowed, "fill.vertex/affine-attributes-reproduced", "generic", || {
+                    orc.check((v.attrs[j] as f64 - g).abs() <= allowed, "fill.vertex/affine-attributes-reproduced", &vclass, || {
                         format!("vertex {} at {:?}: attribute {} = {}, affine function of the position = {} (allowed {:.1e})", vi, v.pos, j, v.attrs[j], g, allowed)
                     });
                 }
@@ -659,7 +848,7 @@ fn fill_case(ctx: &mut Ctx) {
     ctx.case("fill", |rng| {
         let spec = gen_spec(rng);
         let at = gen_attrs(rng, &spec);
-        let cfg = Cfg::gen(rng);
+        let cfg = Cfg::gen(rng).for_spec(&spec);
         let mut args = Out::new();
         args.t(&spec.kind).u(at.n as u64).t(&cfg.name().replace(' ', "-")).f(cfg.tol);
         for p in spec.all_points() {
@@ -709,7 +898,7 @@ fn vertex_case(ctx: &mut Ctx) {
             at.n = 1 + rng.below(3) as usize;
             at.values = spec.endpoints().iter().map(|_| (0..at.n).map(|_| rng.uniform(-10.0, 10.0) as f32).collect()).collect();
         }
-        let mut cfg = Cfg::gen(rng);
+        let mut cfg = Cfg::gen(rng).for_spec(&spec);
         if cfg.entry == 1 && at.n == 0 {
             cfg.entry = 0;
         }
